@@ -25,6 +25,23 @@ def instances(tier):
         for ph in sh["phases"]:
             out.append(Instance("C04", "sys_common:s_run", dict(shape=sh, oracle="c04", opts={"phase": ph}),
                                 name="S/%s@%s" % (sid, ph), uf=True, cover=["solved"], weight=20))
+    # real loop from the real initial iterate on feed-forward cascades (off-states travel one level per sweep)
+    from ..shapes import S, N
+    rl = {
+        "deadsrc-cascade": S(N("S", "Source", pol="nonneg", only=()), N("C1", "Converter", "S", only=()), N("G", "LinReg", "C1", only=("vdrop",)),
+                             N("C2", "Converter", "G", only=()), N("L", "PLoad", "C2", only=()), N("L2", "ILoad", "C2", only=())),
+        "deadsrc-linreg-conv": S(N("S", "Source", pol="nonneg", only=()), N("G", "LinReg", "S", only=()), N("C", "Converter", "G", only=()),
+                                 N("D", "RectD", "C"), N("L", "ILoad", "D", only=())),
+    }
+    for sid, sh in rl.items():
+        out.append(Instance("C04", "sys_common:s_real_loop", dict(shape=sh, oracle="c04"), name="RL/" + sid, uf=True,
+                            cover=["solved", "dead-possible"], weight=20))
+    ph = ["a", "b"]
+    rlp = S(N("S", "Source", only=(), phases=["a"]), N("C1", "Converter", "S", only=("iis",)), N("G", "LinReg", "C1", only=("iis",)),
+            N("C2", "Converter", "G", only=("iis",)), N("L", "PLoad", "C2", only=()), phases=ph)
+    for p in ph:
+        out.append(Instance("C04", "sys_common:s_real_loop", dict(shape=rlp, oracle="c04", opts={"phase": p}), name="RL/src-inactive-cascade@" + p,
+                            uf=True, cover=["solved"], weight=20))
     if tier == "thorough":
         for sid, sh in shapes.enumerate_trees(4, pol="nonneg").items():
             out.append(Instance("C04", "sys_common:s_run", dict(shape=sh, oracle="c04"), name="S/enum4/" + sid, uf=True,
